@@ -113,9 +113,9 @@ PROPS = {
         "explanation": "C20 theorems: the scan is true iff an aligned slot at/above the SP offset holds an address in the half-open system range; the inclusion "
                        "rule; no principal mapping ⇒ all stacks skipped; counterexample theorem for the repaired inclusive comparison. "
                        "E2E_skip_iff (Theorems/EndToEnd.lean): in the composed model of fill_thread_stack the stack is recorded iff the inclusion rule "
-                       "holds on the copy actually taken (the shortened one under a limit), with the offset of the stack pointer in that copy.",
-        "extra_modules": ["MdwModel.Theorems.EndToEnd"],
-        "extra_theorems": ["E2E_skip_iff", "gather_order_agrees"],
+                       "holds on the copy actually taken (the shortened one under a limit), with the offset of the stack pointer in that copy. System_skip (Theorems/System.lean): for the request as one function over a paged target memory, the image records the stack of a thread (stack pointer in readable memory) iff the inclusion rule holds on the target's bytes of the (possibly shortened) region with the stack pointer's offset in that region; the thread's record and context are there either way.",
+        "extra_modules": ["MdwModel.Theorems.EndToEnd", "MdwModel.Theorems.System"],
+        "extra_theorems": ["E2E_skip_iff", "gather_order_agrees", "System_skip"],
     },
     "C15": {
         "rule": "real thread_names_stream::write on a synthetic dumper: every subset of unnamed threads for n ≤ 6 (quick) / 8 (thorough), "
